@@ -112,3 +112,13 @@ package overloader
 //@   requires[typed] o.slotHolders.#skeys[sess] ==> istype(o.slotHolders.#svals[sess], type(*connLimiter)) && as(o.slotHolders.#svals[sess], type(*connLimiter)) != nil
 //@   ensures[no-slot-no-release] !old(o.slotHolders.#skeys[sess]) ==> unchanged()
 //@   ensures[slot-gone] !o.slotHolders.#skeys[sess]
+
+// a limit update keeps the limiter object and its counters: the sessions already
+// admitted stay counted against the new limit
+//@ func (*Overloader).updateConnLimiter
+//@   property C18
+//@   requires limitConfig != nil && (o.connLimiter != nil ==> o.limitConfig != nil && o.connLimiter.lim == o.limitConfig.MaxConn)
+//@   let l0 = old(o.connLimiter)
+//@   ensures[limiter-kept] l0 != nil && limitConfig.MaxConn > 0 ==> o.connLimiter == l0 && l0.tmp == old(l0.tmp) && l0.now == old(l0.now) && l0.#holders == old(l0.#holders)
+//@   ensures[limit-applied] limitConfig.MaxConn > 0 ==> o.connLimiter != nil && o.connLimiter.lim == limitConfig.MaxConn
+//@   ensures[unlimited] limitConfig.MaxConn <= 0 ==> o.connLimiter == nil
